@@ -54,6 +54,12 @@ def run():
         ('disabled event and event beyond tf', 1.0,
          [('Toggle', dict(model='Line', dev='Line_8', t=0.5, u=0)), ('Toggle', dict(model='Line', dev='Line_5', t=2.5)),
           ('Toggle', dict(model='Line', dev='Line_3', t=0.25))]),
+        ('two lines tripped at the same instant and reclosed together', 1.0,
+         [('Toggle', dict(model='Line', dev='Line_8', t=0.4)), ('Toggle', dict(model='Line', dev='Line_5', t=0.4)),
+          ('Toggle', dict(model='Line', dev='Line_8', t=0.7)), ('Toggle', dict(model='Line', dev='Line_5', t=0.7)),
+          ('Toggle', dict(model='Line', dev='Line_3', t=0.7))]),
+        ('a fault is cleared at the instant another one is applied', 1.0,
+         [('Fault', dict(bus=7, tf=0.3, tc=0.5, xf=0.05)), ('Fault', dict(bus=9, tf=0.5, tc=0.6, xf=0.05))]),
         ('event times that are not multiples of any decimal grid', 1.2,
          [('Toggle', dict(model='Line', dev='Line_8', t=1.0 / 9.0)), ('Toggle', dict(model='Line', dev='Line_8', t=0.6180339887498949)),
           ('Fault', dict(bus=7, tf=0.3141592653589793, tc=0.3141592653589793 + 5.0 / 60.0, xf=0.05)),
@@ -85,6 +91,21 @@ def run():
         extra_fired = [g for g in got if g not in want]
         if extra_fired:
             return n, dict(what, observed='unexpected event actions %r' % extra_fired)
+        # the effects themselves: a line's status is its initial status flipped once per due toggle; every fault that was cleared is off
+        flips = {}
+        for m, p in extra:
+            if m == 'Toggle' and p.get('u', 1) != 0 and p.get('model') == 'Line' and 0 < p['t'] <= tf:
+                flips[p['dev']] = flips.get(p['dev'], 0) + 1
+        for dev, k in flips.items():
+            u_now = float(ss.Line.get('u', dev, 'v'))
+            if u_now != float((1 + k) % 2):
+                return n, dict(what, observed='%s was toggled %d time(s) from in service, its status is now %r' % (dev, k, u_now))
+        fk = 0
+        for m, p in extra:
+            if m == 'Fault':
+                if p.get('u', 1) != 0 and 0 < p['tc'] <= tf and float(ss.Fault.uf.v[fk]) != 0.0:
+                    return n, dict(what, observed='fault #%d (bus %r, cleared at %r) is still applied at the end of the run (uf = %r)' % (fk, p['bus'], p['tc'], float(ss.Fault.uf.v[fk])))
+                fk += 1
     return n, None
 
 
